@@ -193,7 +193,7 @@ def run_once_serial(cfg, *, max_workers=None, prelude=False, around_run=None, wa
             [lab.is_cached(t) for t in built.canon]
         try:
             with quiet, (around_run(backend) if around_run is not None else contextlib.nullcontext()):
-                res = lab.run_tasks(req, bust_cache=cfg.bust_cache, disable_progress=not displays, disable_top=not displays)
+                res = lab.run_tasks(req, **({'bust_cache': True} if cfg.bust_cache else {}), disable_progress=not displays, disable_top=not displays)
             outcome = ('return', res)
         except Spin as e:
             outcome = ('spin', e)
